@@ -101,6 +101,25 @@ struct ValMutator {
 };
 inline int count_struct_candidates(const Sch& s, const Val& v) { Rng r(1); ValMutator m(r, -1); Val c = v; m.walk(s, c); return m.seen; }
 
+// Two cooperating fields of a table: an entry size that makes a skip wrap around the reader's position together with an
+// inflated entry count (a reader whose Skip check overflows walks the same entry forever or far past the data).
+inline void table_wrap_mutations(const Enc& e, std::vector<Mut>& out) {
+  for (size_t ei = 0; ei < e.entries.size() && ei < 6; ei++) {
+    const EntrySpan& sp = e.entries[ei]; const Field& cf = e.fields[sp.count_field];
+    size_t hdr = sp.val_off - sp.id_off;
+    for (uint64_t back : {(uint64_t)hdr, (uint64_t)hdr + 1, (uint64_t)1, (uint64_t)(sp.val_off), (uint64_t)(sp.val_off + 1)}) {
+      for (int unknown_id = 0; unknown_id < 2; unknown_id++) for (int huge_count = 0; huge_count < 2; huge_count++) {
+        Enc sz; sz.put_uint(0ull - back, Role::SIZE, 64);                               // 2^64 - back
+        Bytes m = splice(e.out, sp.size_off, sp.val_off - sp.size_off, sz.out);         // (later offsets shift; earlier ones do not)
+        if (unknown_id) { Enc id; id.put_uint(0x7fffffffffffff01ull, Role::ID, 64); m = splice(m, sp.id_off, sp.size_off - sp.id_off, id.out); }
+        if (huge_count) { Enc c; c.put_uint(~0ull, Role::COUNT, 64); m = splice(m, cf.off, cf.len, c.out); }   // the count field precedes the entry
+        Mut mu; mu.bytes = std::move(m); mu.kind = MutKind::TableOp; mu.desc = fmt("entry@%zu size=2^64-%" PRIu64 "%s%s", sp.id_off, back, unknown_id ? " id=unknown" : "", huge_count ? " count=2^64-1" : "");
+        out.push_back(std::move(mu));
+      }
+    }
+  }
+}
+
 inline void noise_mutations(const Bytes& b, Rng& r, int n, std::vector<Mut>& out) {
   for (int i = 0; i < n; i++) {
     Mut m; m.bytes = b; m.kind = MutKind::Noise; int op = (int)r.below(4);
